@@ -30,6 +30,12 @@ def run(rep, tier, seed, replay=None):
         budget = (2500 if tier == "quick" else 60000)
         produced = 0
         fv = [v for v in netprops.valid_cases(fam, seed + 8, 500 if tier == "quick" else 6000) if not v.notwf]
+        # the family's own variants of valid exchanges come first (Valve: the same replies as bzip2-COMPRESSED Source splits —
+        # only fragment 0 carries the announced size and checksum, whichever fragment arrives first)
+        if fam == "valve" and hasattr(fmod, "decode_variants"):
+            extra = [x for v in fv[: (120 if tier == "quick" else 1500)] for x in fmod.decode_variants(v, rnd)]
+            rep.count("variants:" + fam, len(extra))
+            fv = extra[: (40 if tier == "quick" else 600)] + fv
         for v in fv:
             c = v.case()
             if hasattr(fmod, "c08_prepare"):
